@@ -168,7 +168,7 @@ example : genWasmWith fbStub [exInt, exFlt] = .ok exModule := by decide +kernel
 example (h : packF32 1.5 = some 0x3FC00000) : genWasm [exInt, exFlt] = .ok exModule := by
   simp [genWasm, genWasmWith, genFuncs, genFunc, exInt, exFlt, exModule, convertFuncType, convertVTs,
     convertVT, collectEntries, instrEntry, nonVoid, ITy.isVoid, addEntry, hasRef, transCode, transInstr,
-    lookupRef, pushOpd, selectOp, isSelCmp, opdITy, otOfITy, numOpFor, groupLocals, addLocalRev,
+    lookupRef, pushOpd, selectOp, isSelCmp, opdITy, otOfITy, numOpFor, groupLocals, addLocalRev, retOK, retInstrOK, retVT, isReturn,
     mkExports, h, List.range, List.range.loop]
 
 /-- The hypotheses of `genWasm_valid` hold for it, and the module validates (by computation). -/
